@@ -2,6 +2,8 @@ import Proofs.SortExt
 import Proofs.SortCode
 import Proofs.SortCanon
 import Proofs.SortArity
+import Proofs.SortFile
+import Generated.C16
 /-!
 # C16 — External sort returns the sorted (and combined) multiset of its input
 
@@ -26,9 +28,13 @@ variable {α : Type}
 theorem prefixOrder_lawful : StrictWeak prefixLt := lexLt_strictWeak.comap _
 theorem suffixOrder_lawful : StrictWeak suffixLt := lexLt_strictWeak.comap _
 theorem contextOrder_lawful : StrictWeak contextLt := lexLt_strictWeak.comap _
-theorem intOrder_lawful : StrictWeak intLt :=
-  StrictWeak.comap (lt := fun (a b : Nat) => decide (a < b))
-    ⟨by simp, by intro a b c; simp; omega, by intro a b c; simp; omega⟩ _
+theorem intOrder_lawful : StrictWeak intLt := lexLt_strictWeak.comap _
+/-- on the one-word keys the integer orders use, `intLt` is the unsigned integer comparison -/
+theorem intLt_singleton (a b p q : Nat) : intLt ⟨[a], p⟩ ⟨[b], q⟩ = decide (a < b) := by
+  simp only [intLt, lexLt]
+  by_cases h : a = b
+  · subst h; simp
+  · simp [h]
 theorem fullOrder_lawful : StrictWeak fullLt := lexLt_strictWeak.comap _
 
 /-- `fullLt` is a total order on whole records -/
@@ -362,6 +368,13 @@ theorem counting_of_keyTotal {lt : Rec → Rec → Bool} (sw : StrictWeak lt)
     · simp [hab] at h
   complete := fun a b h => by simp [combineCounts, h]
 
+/-- the counting combiner under the integer orders (one-word keys) -/
+theorem counting_int : Counting intLt Rec.key Rec.payload combineCounts :=
+  counting_of_keyTotal (lexLt_strictWeak.comap _) (fun a b => by
+    constructor
+    · intro ⟨h1, h2⟩; exact lexLt_tri _ _ h1 h2
+    · intro hk; simp [intLt, hk, lexLt_irrefl])
+
 /-- `CombineCounts` under `SuffixOrder` (the production pairing) satisfies `Counting` -/
 theorem counting_suffix : Counting suffixLt Rec.key Rec.payload combineCounts where
   sw := lexLt_strictWeak.comap _
@@ -520,6 +533,265 @@ theorem merge_ret_sufficient {entrySize bufferSize totalMemory : Nat} {cfg : Cfg
 theorem sizedSort_perm_sorted {lt : α → α → Bool} (h : StrictWeak lt) (b : List α) :
     (blockSort lt b).Pairwise (fun a b => lt b a = false) ∧ blockSort lt b ~ b :=
   ⟨blockSort_sorted h b, blockSort_perm lt b⟩
+
+/-! ## Byte level: records in a flat buffer (util/sized_iterator.hh, util/proxy_iterator.hh) -/
+
+/-- **sized_swap_exchanges**: `swap(SizedProxy_i, SizedProxy_j)` on a block of `n` records of *any*
+size `s` keeps the length, and byte `p` of the result is byte `p - i·s + j·s` of the old buffer if
+`p` lies in record `i`, byte `p - j·s + i·s` if it lies in record `j`, and the old byte `p`
+otherwise: exactly the two byte ranges are exchanged, every other byte is untouched. -/
+theorem sized_swap_exchanges {s n : Nat} {buf : Buf} (hl : buf.length = n * s) {i j : Nat}
+    (hi : i < n) (hj : j < n) (hij : i ≠ j) :
+    (sizedSwap s buf i j).length = buf.length ∧
+    ∀ p, (sizedSwap s buf i j)[p]? =
+      if i * s ≤ p ∧ p < i * s + s then buf[p - i * s + j * s]?
+      else if j * s ≤ p ∧ p < j * s + s then buf[p - j * s + i * s]? else buf[p]? :=
+  ⟨sizedSwap_length s buf i j, sizedSwap_get hl hi hj hij⟩
+
+/-- the same at record level (also for `i = j`, which `std::sort` may do) -/
+theorem sized_swap_records {s n : Nat} {buf : Buf} (hl : buf.length = n * s) {i j : Nat}
+    (hi : i < n) (hj : j < n) (k : Nat) (hk : k < n) :
+    recAt s (sizedSwap s buf i j) k =
+      if k = i then recAt s buf j else if k = j then recAt s buf i else recAt s buf k :=
+  recAt_sizedSwap hl hi hj k hk
+
+/-- `ProxyIterator`/`SizedInnerIterator` arithmetic (proxy_iterator.hh, sized_iterator.hh:27-33):
+`it += k` moves the pointer by `k·size` bytes and `it₂ - it₁` divides the byte distance by `size`,
+so iterator positions are record indices: record `i + k` starts at byte `(i + k)·s`, and the
+distance between records `i ≤ j` is `j - i`. -/
+theorem proxy_iterator_arith (s i j k : Nat) (hs : 0 < s) (hij : i ≤ j) :
+    i * s + k * s = (i + k) * s ∧ (j * s - i * s) / s = j - i := by
+  refine ⟨(Nat.add_mul i k s).symm, ?_⟩
+  rw [← Nat.sub_mul, Nat.mul_div_cancel _ hs]
+
+/-- the model's swap is the code's swap: the table regenerated on every run by tools/probe_C16.cc
+(the real `util::swap(SizedProxy, SizedProxy)` on `[0 … 2s-1]` for 27 record sizes in 1…64) is
+reproduced by `sizedSwap`.  A swap that is not byte-wise (seeded/C16-3) changes the table and this
+obligation no longer checks. -/
+theorem swap_matches_code :
+    KV.Gen.C16.swapCases.all (fun c => sizedSwap c.1 (List.range (2 * c.1)) 0 1 == c.2) = true := by
+  decide +kernel
+
+/-- the word-wise swap of seeded/C16-3 is *not* an exchange: for 5-byte records the fifth byte of
+each record stays behind -/
+theorem wordSwap_not_exchange :
+    recAt 5 (wordSwap 5 [0, 1, 2, 3, 4, 5, 6, 7, 8, 9] 0 1) 0 ≠ recAt 5 [0, 1, 2, 3, 4, 5, 6, 7, 8, 9] 1 ∧
+    wordSwap 5 [0, 1, 2, 3, 4, 5, 6, 7, 8, 9] 0 1 = [5, 6, 7, 8, 4, 0, 1, 2, 3, 9] ∧
+    sizedSwap 5 [0, 1, 2, 3, 4, 5, 6, 7, 8, 9] 0 1 = [5, 6, 7, 8, 9, 0, 1, 2, 3, 4] := by
+  decide
+
+/-- **sizedSort_bytes**: `SizedSort` is `std::sort` over proxies, i.e. some sequence `ops` of
+byte-wise record swaps, record copies and `ValueBlock` temporaries with all indices inside the
+block (`opsValid`).  If that sequence, run on an abstract array of records, yields a sorted
+permutation (what libstdc++ guarantees), then the flat byte buffer after running it byte-wise has
+the same length and its records are that sorted permutation of the original records, as byte
+strings — for every record size. -/
+theorem sizedSort_bytes {s n : Nat} (lt : List Nat → List Nat → Bool) (ops : List SortOp) (buf : Buf)
+    (hl : buf.length = n * s) (hv : opsValid n 0 ops = true)
+    (hsorted : ((List.range n).map (execRecs ops (recAt s buf)).1).Pairwise (fun a b => lt b a = false))
+    (hperm : (List.range n).map (execRecs ops (recAt s buf)).1 ~ (List.range n).map (recAt s buf)) :
+    (execBytes s ops buf).1.length = buf.length ∧
+    (recsOf s n (execBytes s ops buf).1).Pairwise (fun a b => lt b a = false) ∧
+    recsOf s n (execBytes s ops buf).1 ~ recsOf s n buf := by
+  obtain ⟨h1, h2⟩ := execBytes_sim ops buf hl hv
+  rw [recsOf_congr h2]
+  exact ⟨by rw [h1, hl], hsorted, hperm⟩
+
+/-- a concrete run: three 3-byte records, selection of the minimum by swaps, and a rotation through
+a temporary -/
+example : (execBytes 3 [.swap 0 2, .save 1, .assign 1 2, .restore 2 0] [7, 7, 7, 5, 5, 5, 1, 1, 1]).1
+    = [1, 1, 1, 7, 7, 7, 5, 5, 5] := by decide
+example : opsValid 3 0 [.swap 0 2, .save 1, .assign 1 2, .restore 2 0] = true := by decide
+
+/-! ## Byte level: the temp file (util/stream/io.cc, sort.hh) -/
+
+/-- **spill_roundtrip**: for any chain blocks — full, partial, empty — with `ValidSize ≤ block_size`:
+the file written by `WriteAndRecycle` (appending `ValidSize()` bytes per block), the `Offsets` log
+of the block sizes in bytes, and the reads at `(TotalOffset() before, NextSize())` give back, run
+by run, exactly the valid bytes of the non-empty blocks. -/
+theorem spill_roundtrip (blocks : List Block) (hv : ∀ b ∈ blocks, b.valid ≤ b.mem.length) :
+    readRunsBytes (writeAndRecycle [] blocks) (blockSorterLog blocks) =
+      some ((blocks.filter (fun b => decide (b.valid ≠ 0))).map (fun b => b.mem.take b.valid)) :=
+  spill_roundtrip_aux blocks hv
+
+/-- writing `block_size` bytes instead of `ValidSize()` (seeded mutant m8) breaks the round trip
+as soon as a partial block is followed by another block -/
+theorem spill_m8_breaks :
+    readRunsBytes (writeAndRecycleM8 [] [⟨[1, 2, 3, 4], 2⟩, ⟨[5, 6, 7, 8], 4⟩]) (blockSorterLog [⟨[1, 2, 3, 4], 2⟩, ⟨[5, 6, 7, 8], 4⟩])
+      = some [[1, 2], [3, 4, 5, 6]] ∧
+    readRunsBytes (writeAndRecycle [] [⟨[1, 2, 3, 4], 2⟩, ⟨[5, 6, 7, 8], 4⟩]) (blockSorterLog [⟨[1, 2, 3, 4], 2⟩, ⟨[5, 6, 7, 8], 4⟩])
+      = some [[1, 2], [5, 6, 7, 8]] := by
+  decide
+
+/-- **stream_write_roundtrip**: the output side of a merge pass — a `Stream` filling chain blocks of
+any size `cap`, passing full blocks on, `Poison` passing the last block with its valid size, and
+`WriteAndRecycle` appending the valid bytes — leaves exactly the bytes written in the file. -/
+theorem stream_write_roundtrip (cap : Nat) (pad : Buf) (fuel : Nat) (bytes : Buf) :
+    writeAndRecycle [] (streamToBlocks cap pad fuel bytes) = bytes := by
+  simpa using stream_write_aux cap pad fuel bytes []
+
+example : streamToBlocks 4 [9, 9, 9, 9] 5 [1, 2, 3, 4, 5, 6] = [⟨[1, 2, 3, 4], 4⟩, ⟨[5, 6, 9, 9, 9, 9], 2⟩] := by decide
+example : streamToBlocks 2 [9, 9] 5 [1, 2, 3, 4] = [⟨[1, 2], 2⟩, ⟨[3, 4], 2⟩, ⟨[9, 9], 0⟩] := by decide
+
+/-- **pwrite_roundtrip**: `PWrite` (positional writes at the running offset, then truncation)
+leaves exactly the valid bytes of the blocks in the file, whatever the file held before — the same
+content `WriteAndRecycle` produces on an empty file. -/
+theorem pwrite_roundtrip (file : Buf) (blocks : List Block) :
+    pwriteRun file blocks = (blocks.map (fun b => b.mem.take b.valid)).flatten ∧
+    pwriteRun file blocks = writeAndRecycle [] blocks := by
+  have h := pwrite_fold blocks file 0 [] (by simp) rfl
+  simp only [List.nil_append] at h
+  exact ⟨h, by rw [writeAndRecycle_eq, List.nil_append]; exact h⟩
+
+/-- **spill_records_roundtrip** (connection to `storeRuns_roundtrip`): runs of `s`-byte records
+written as bytes, logged in bytes, read back at the logged offsets and cut into records are the
+runs the record-level model delivers — the non-empty runs, unchanged. -/
+theorem spill_records_roundtrip {s : Nat} (hs : 0 < s) (runs : List (List (List Nat)))
+    (hu : ∀ r ∈ runs, ∀ x ∈ r, x.length = s) :
+    (readRunsBytes (runs.map bytesOf).flatten (runs.map (fun r => r.length * s))).map (·.map (recordsOf s)) =
+      some (runs.filter (fun r => !r.isEmpty)) := by
+  rw [spill_records_aux hs runs hu]
+  exact storeRuns_eq runs
+
+/-- **pass_spill_bytes**: the same for the output file of a merge pass.  The merged groups are
+written as bytes, each logged with `written · entry_size`, read back at the logged byte offsets and
+cut into records: that is exactly what the record-level `pass` stores (`storeRunsLogged` with the
+`written` counters), whenever the merged records all have the record size (always without a
+combiner: `mergeGroup_uniform`). -/
+theorem pass_spill_bytes {s : Nat} (hs : 0 < s) (lt : List Nat → List Nat → Bool) (comb) (pick)
+    (gs : List (List (List (List Nat))))
+    (hu : ∀ g ∈ gs, ∀ x ∈ mergeGroup lt comb pick g, x.length = s) :
+    (readRunsBytes ((gs.map (mergeGroup lt comb pick)).map bytesOf).flatten
+        ((gs.map (mergeWritten lt comb pick)).map (· * s))).map (·.map (recordsOf s)) =
+      storeRunsLogged (gs.map (mergeWritten lt comb pick)) (gs.map (mergeGroup lt comb pick)) := by
+  have hw : gs.map (mergeWritten lt comb pick) = (gs.map (mergeGroup lt comb pick)).map List.length := by
+    rw [List.map_map]
+    exact List.map_congr_left (fun g _ => mergeWritten_eq lt comb pick g)
+  rw [hw]
+  have hl : ((gs.map (mergeGroup lt comb pick)).map List.length).map (· * s) =
+      (gs.map (mergeGroup lt comb pick)).map (fun r => r.length * s) := by
+    rw [List.map_map]; rfl
+  rw [hl]
+  exact spill_records_aux hs _ (by
+    intro r hr
+    obtain ⟨g, hg, rfl⟩ := List.mem_map.mp hr
+    exact hu g hg)
+
+/-- without a combiner the merged records are the input records, so they keep the record size -/
+theorem mergeGroup_uniform {s : Nat} {lt : List Nat → List Nat → Bool} (h : StrictWeak lt) (pick)
+    (g : List (List (List Nat))) (hg : ∀ r ∈ g, ∀ x ∈ r, x.length = s) :
+    ∀ x ∈ mergeGroup lt neverCombine pick g, x.length = s := by
+  intro x hx
+  have := (mergeGroup_perm h pick g).subset hx
+  obtain ⟨r, hr, hxr⟩ := List.mem_flatten.mp this
+  exact hg r hr x hxr
+
+/-- the byte-level block sorter + spill is the record-level block sorter on the blocks' records -/
+theorem afterBlockSorterBytes_refines {s : Nat} (hs : 0 < s) (lt : List Nat → List Nat → Bool)
+    (blocks : List Block) (hw : ∀ b ∈ blocks, b.wf s) :
+    afterBlockSorterBytes s lt blocks = afterBlockSorter lt (blocks.map (Block.records s)) :=
+  afterBlockSorterBytes_eq hs lt blocks hw
+
+/-- **codeSortBytes_eq_spec**: `codeSort_eq_spec` over the byte-level model.  Chain blocks are flat
+byte buffers with a valid size (a multiple of the record size), sorted in place, spilled to a
+byte-level temp file and read back at the logged byte offsets; then the code's own merge plan runs.
+For a comparison that is a total order on the occurring records, the output bytes are the bytes of
+the sorted records. -/
+theorem codeSortBytes_eq_spec {s : Nat} (hs : 0 < s) {lt : List Nat → List Nat → Bool} (h : StrictWeak lt)
+    (pick) (cfg : Cfg) (lazyMem : Nat) (blocks : List Block) (hw : ∀ b ∈ blocks, b.wf s)
+    (htot : ∀ a b, a ∈ (blocks.map (Block.records s)).flatten → b ∈ (blocks.map (Block.records s)).flatten →
+      lt a b = false → lt b a = false → a = b)
+    (out : Buf) (p ret : Nat)
+    (ho : codeSortBytes s lt neverCombine pick cfg lazyMem blocks = .ok (out, p, ret)) :
+    out = bytesOf (sortSpec lt neverCombine (blocks.map (Block.records s))) := by
+  unfold codeSortBytes at ho
+  rw [afterBlockSorterBytes_eq hs lt blocks hw] at ho
+  have key : ∀ out', codeSort lt neverCombine pick cfg lazyMem (blocks.map (Block.records s)) = .ok (out', p, ret) →
+      out' = sortSpec lt neverCombine (blocks.map (Block.records s)) :=
+    fun out' ho' => codeSort_eq_spec h pick cfg lazyMem _ htot out' p ret ho'
+  unfold codeSort at key
+  cases hab : afterBlockSorter lt (blocks.map (Block.records s)) with
+  | none => rw [hab] at ho; cases ho
+  | some runs =>
+    rw [hab] at ho key
+    simp only at ho key
+    cases hm : codeMerge lt neverCombine pick cfg lazyMem runs with
+    | error e => rw [hm] at ho; cases ho
+    | ok m =>
+      rw [hm] at ho key
+      simp only at ho key
+      cases hf : codeFinal lt neverCombine pick cfg lazyMem m.runs with
+      | error e => rw [hf] at ho; cases ho
+      | ok o =>
+        rw [hf] at ho key
+        simp only [Except.ok.injEq, Prod.mk.injEq] at ho key
+        obtain ⟨rfl, rfl, rfl⟩ := ho
+        rw [key o ⟨rfl, rfl, rfl⟩]
+
+/-- … and it always produces an output (no abort) for every accepted configuration -/
+theorem codeSortBytes_ok {s : Nat} (hs : 0 < s) {entrySize bufferSize totalMemory : Nat} {cfg : Cfg}
+    (hcfg : mkCfg entrySize bufferSize totalMemory = .ok cfg)
+    (lt : List Nat → List Nat → Bool) (comb) (pick) (lazyMem : Nat) (blocks : List Block)
+    (hw : ∀ b ∈ blocks, b.wf s) :
+    ∃ out p ret, codeSortBytes s lt comb pick cfg lazyMem blocks = .ok (out, p, ret) := by
+  obtain ⟨out, p, ret, ho⟩ := codeSort_ok hcfg lt comb pick lazyMem (blocks.map (Block.records s))
+  unfold codeSort at ho
+  unfold codeSortBytes
+  rw [afterBlockSorterBytes_eq hs lt blocks hw]
+  cases hab : afterBlockSorter lt (blocks.map (Block.records s)) with
+  | none => rw [hab] at ho; cases ho
+  | some runs =>
+    rw [hab] at ho
+    simp only at ho ⊢
+    cases hm : codeMerge lt comb pick cfg lazyMem runs with
+    | error e => rw [hm] at ho; cases ho
+    | ok m =>
+      rw [hm] at ho
+      simp only at ho ⊢
+      cases hf : codeFinal lt comb pick cfg lazyMem m.runs with
+      | error e => rw [hf] at ho; cases ho
+      | ok o => exact ⟨_, _, _, rfl⟩
+
+/-- **byteEntry_refines**: a queue entry at byte level (`Read` loads `per_buffer` bytes,
+`Increment` advances `current_` by `entry_size` and refills when `current_ == buffer_end_`) refines
+the record-level buffered entry (`bufferedEntry_refines`) whenever `per_buffer` is a positive
+multiple of the entry size — which `per_buffer -= per_buffer % entry_size; assert(per_buffer)`
+(sort.hh:269-270) ensures: `Increment` never steps over `buffer_end_`, the records delivered are
+the records of the run, and the entry stays well-formed. -/
+theorem byteEntry_refines {E cap : Nat} (hE : 0 < E) (hc : 0 < cap) (hcap : E ∣ cap) :
+    (∀ file : Buf, E ∣ file.length →
+      (ByteEntry.read cap file).map (ByteEntry.abs E) = BufEntry.read (cap / E) (recordsOf E file) ∧
+      ∀ e, ByteEntry.read cap file = some e → e.wf E) ∧
+    (∀ e : ByteEntry, e.wf E →
+      ∃ r, e.increment E cap = .ok r ∧ r.map (ByteEntry.abs E) = (ByteEntry.abs E e).increment (cap / E) ∧
+        ∀ e', r = some e' → e'.wf E) :=
+  ⟨fun file hf => byteEntry_read hE hc hcap file hf, fun e hw => byteEntry_increment hE hc hcap e hw⟩
+
+/-- without the rounding the equality test `current_ != buffer_end_` is stepped over: entry size 2,
+a 3-byte buffer — after one record one byte is left and the next `Increment` leaves the buffer -/
+theorem byteEntry_unrounded_breaks :
+    ByteEntry.read 3 [1, 2, 3, 4, 5, 6] = some ⟨[1, 2, 3], [4, 5, 6]⟩ ∧
+    (⟨[1, 2, 3], [4, 5, 6]⟩ : ByteEntry).increment 2 3 = .ok (some ⟨[3], [4, 5, 6]⟩) ∧
+    (⟨[3], [4, 5, 6]⟩ : ByteEntry).increment 2 3 = .error () :=
+  ⟨rfl, rfl, rfl⟩
+
+/-! ## The chain blocks of the output -/
+
+/-- **output_blocks_invariant**: the blocks the consumer of `Sort::Output` receives (poison only /
+`ReadSingle` / merging `Stream`) carry all `nout` records, none exceeds the block capacity, and
+every block except the last is full. -/
+theorem output_blocks_invariant {cap : Nat} (hc : 0 < cap) (nruns nout : Nat) (h0 : nruns = 0 → nout = 0) :
+    (outputBlocks cap nruns nout).sum = nout ∧ (∀ b ∈ outputBlocks cap nruns nout, b ≤ cap) ∧
+      (∀ b ∈ (outputBlocks cap nruns nout).dropLast, b = cap) :=
+  outputBlocks_ok hc nruns nout h0
+
+/-- the same for `PRead` of the file handed over by `StealCompleted` (as lmplz reads it) -/
+theorem pread_blocks_invariant {cap : Nat} (hc : 0 < cap) (n : Nat) :
+    (preadBlocks cap n).sum = n ∧ (∀ b ∈ preadBlocks cap n, b ≤ cap) ∧ (∀ b ∈ (preadBlocks cap n).dropLast, b = cap) :=
+  preadBlocks_ok hc n
+
+example : outputBlocks 4 1 8 = [4, 4] ∧ outputBlocks 4 3 8 = [4, 4, 0] ∧ outputBlocks 4 3 9 = [4, 4, 1] ∧
+    outputBlocks 4 0 0 = [] := by decide
 
 /-! ## Non-vacuity: the hypotheses are satisfiable by the orders and the combiner of the code -/
 
